@@ -24,7 +24,7 @@ RULE = ("histories = (propagator x trial) x sampler shape (steps, energy blocks,
         "reconfiguration, with/without orbital relaxation) x driver-style outer loop (sampler call, QR, global reconfiguration, estimate update) x "
         "seed; real driver runs over ad_mode x do_sr x orbital_rotation x walker_type; non-trivial = history with at least two sampler calls and "
         "a reconfiguration that changed the walker order (non-uniform weights)")
-MIN_NONTRIVIAL = {"quick": 8, "thorough": 50}
+MIN_NONTRIVIAL = {"quick": 8, "thorough": 30}
 TIMEOUT = {"quick": 3000, "thorough": 12000}
 ASSUMPTIONS = ["walkers with weight 0 are excluded from the coherence maximum (a killed walker has no meaningful cached overlap)",
                "AD entry points are driven at a converged trial so that trial.optimize leaves the orbitals unchanged"]
